@@ -247,6 +247,25 @@ def rule_report(rep):
     for v in VB_TABLE:
         if v not in seen:
             rep.ob(R, "validate_buffers/" + v, False, "no test returning %s found" % v, loc(fn))
+    # every active channel is inspected: the two per-channel loops run over the whole slice, filtered by the channel's mask bit only
+    from asyncmodel import mask_guard_of_loop
+    loops = [x for x in walk(fn["body"]) if x.get("k") == "for"]
+    covered = {}
+    for lp in loops:
+        g = mask_guard_of_loop(lp)
+        base = g["over"]
+        which = "input" if is_path(base, wave_in) else "output" if is_path(base, wave_out) else None
+        if which is None:
+            continue
+        full = g["methods"] in (["iter", "enumerate", "filter"], ["iter_mut", "enumerate", "filter"]) and g["guard"] == "filter-mask" and nbit(g.get("mask_expr")) == mask
+        exits = [x for x in walk(lp["body"]) if x.get("k") in ("break", "continue")]
+        covered[which] = full and not exits
+        rep.ob(R, "validate_buffers/%s-coverage" % which, full and not exits,
+               "the %s length loop must visit every channel whose mask bit is set: iterator chain %s over `%s` (required: iter().enumerate().filter(|(chan, _)| %s[*chan]), no take/skip/take_while/step_by, no break/continue)"
+               % (which, g["methods"], show(base), mask), loc(fn, lp), sample={"loop": which, "chain": g["methods"]})
+    for which in ("input", "output"):
+        if which not in covered:
+            rep.ob(R, "validate_buffers/%s-coverage" % which, False, "no per-channel length loop over the %s buffers found" % which, loc(fn))
     # channel-count tests must come before the per-channel loops that index `mask[chan]`
     mi = order.index("WrongNumberOfMaskChannels") if "WrongNumberOfMaskChannels" in order else -1
     ii = order.index("InsufficientInputBufferSize") if "InsufficientInputBufferSize" in order else 99
@@ -415,7 +434,7 @@ def run(rep):
     rep.guarded("R-C13-ctor", rule_ctor)
     rep.floor("R-C13-mask", 1 + 7 + 3)
     rep.floor("R-C13-order", 7 * 4)
-    rep.floor("R-C13-report", 5 + 2 + 2)
+    rep.floor("R-C13-report", 5 + 2 + 2 + 2)
     rep.floor("R-C13-args", 14)
     rep.floor("R-C13-ctor", 7 + 9)
     rep.clause("R-C13-mask", "every length-sensitive use of the caller's mask (copy_from_slice, indexing) is preceded by a length test returning WrongNumberOfMaskChannels")
